@@ -900,6 +900,38 @@ func c12FontTimes(r *run.Run) {
 		})
 }
 
+// c12FontVertical: ascent, descent and line gap through the whole-font writer and reader, at the signed
+// extremes and with the unusual signs (a descent above the baseline, an ascent below it).
+func c12FontVertical(r *run.Run) {
+	asc := []funit.Int16{800, 0, -5, 32767, -32768}
+	desc := []funit.Int16{-200, 0, 5, 32767, -32768}
+	gap := []funit.Int16{0, 100, -1, 32767, -32768}
+	r.Explore(explore.Config{Name: "C12.font-vertical"},
+		"Font.Write / sfnt.Read on a font of each outline kind with ascent from {800, 0, -5, 32767, -32768}, descent from {-200, 0, 5, 32767, -32768} and line gap from {0, 100, -1, 32767, -32768} in all combinations: all three come back unchanged",
+		func(c *explore.Ctx) {
+			kind := c.Choose(3, "outline kind")
+			f, _ := FontFromChoices(gen.FontOpts{NoMeta: true, Compact: true}, kind, 1)
+			f.Ascent, f.Descent, f.LineGap = asc[c.Choose(len(asc), "ascent")], desc[c.Choose(len(desc), "descent")], gap[c.Choose(len(gap), "line gap")]
+			d := fmt.Sprintf("%s ascent %d descent %d line gap %d", gen.KindNames[kind], f.Ascent, f.Descent, f.LineGap)
+			c.Sample(func() any { return d })
+			c.Nontrivial()
+			file, err := writeFont(f)
+			if err != nil {
+				c.Fail("C12.vertical", "write", "Write fails: %v (%s)", err, d)
+				return
+			}
+			back, err := sfnt.Read(bytes.NewReader(file))
+			if err != nil {
+				c.Fail("C12.vertical", "read", "Read(Write(F)) fails: %v (%s)", err, d)
+				return
+			}
+			c.Outcome(d)
+			if back.Ascent != f.Ascent || back.Descent != f.Descent || back.LineGap != f.LineGap {
+				c.Fail("C12.vertical", "values", "ascent %d descent %d line gap %d come back as %d, %d, %d (%s)", f.Ascent, f.Descent, f.LineGap, back.Ascent, back.Descent, back.LineGap, gen.KindNames[kind])
+			}
+		})
+}
+
 // large horizontal metrics tables: the number of long metrics is a 16-bit count and 4 * count bytes long
 func c12HmtxScaled(r *run.Run) {
 	cases := [][2]int{{255, 0}, {256, 1}, {16383, 0}, {16384, 0}, {16385, 0}, {16385, 5}, {20000, 0}, {32768, 1}, {40000, 20000}, {65535, 0}, {65535, 65000}, {65535, 49152}}
@@ -969,5 +1001,6 @@ func init() {
 		c12BBoxElevated(r)
 		c12BBoxCurves(r)
 		c12FontTimes(r)
+		c12FontVertical(r)
 	})
 }
